@@ -35,15 +35,20 @@ def cases(tier, seed):
     # block-count arithmetic: EVERY (n, k) with k < n <= 64 [96] x b = 1..8 concatenated blocks (shapes only depend on n, k, b)
     for n in range(2, 65 if tier == "quick" else 97):
         yield f"C04|dims|n={n:02d}", {"dims_n": n, "tier": tier}
+    # many blocks in one call (5000 / 4500 / 4600 blocks: beyond 4096 and not a multiple of it), non-periodic messages, three layouts
+    for nm in ("hamming3", "bch15_7", "rm13", "generic", "systematic", "cyclic7", "ldpc", "golay", "rep5", "spc4"):
+        yield f"C04|many-blocks|{nm}", {"big": nm, "tier": tier}
 
 
 def component_of(p):
-    return "dims" if "dims_n" in p else p["specs"][0][0]
+    return "dims" if "dims_n" in p else "many-blocks" if "big" in p else p["specs"][0][0]
 
 
 def execute(p, res):
     if "dims_n" in p:
         return dims_case(p, res)
+    if "big" in p:
+        return big_case(p, res)
     if p.get("restore"):
         specs = p["specs"]
         for a, b in zip(specs, specs[1:]):
@@ -59,6 +64,50 @@ def execute(p, res):
         return
     for spec in p["specs"]:
         check(spec, p["tier"], res)
+
+
+def big_case(p, res):
+    import torch
+    from kaira.models.fec import encoders as E
+    nm = p["big"]
+    enc = {"hamming3": lambda: E.HammingCodeEncoder(3), "bch15_7": lambda: E.BCHCodeEncoder(4, 5, information_set="right"), "rm13": lambda: E.ReedMullerCodeEncoder(1, 3),
+           "generic": lambda: E.LinearBlockCodeEncoder(generator_matrix=torch.tensor([[1.0, 1, 0, 1, 0], [0, 1, 1, 1, 1]])),
+           "systematic": lambda: E.SystematicLinearBlockCodeEncoder(parity_submatrix=torch.tensor([[1.0, 1, 0], [0, 1, 1]]), information_set=[4, 1]),
+           "cyclic7": lambda: E.CyclicCodeEncoder(7, generator_polynomial=0b1011), "ldpc": lambda: E.LDPCCodeEncoder(check_matrix=torch.tensor([[1.0, 1, 0, 1, 0, 0], [0, 1, 1, 0, 1, 0], [0, 0, 0, 1, 1, 1]])),
+           "golay": lambda: E.GolayCodeEncoder(), "rep5": lambda: E.RepetitionCodeEncoder(5), "spc4": lambda: E.SingleParityCheckCodeEncoder(4)}[nm]()
+    n, k = int(enc.code_length), int(enc.code_dimension)
+    for lay, shape in (("(5000,k)", (5000, k)), ("(50,30,3k)", (50, 30, 3 * k)), ("(2300,2k)", (2300, 2 * k))):
+        tot = 1
+        for s_ in shape:
+            tot *= s_
+        # fixed pseudo-random bits from a private generator (low bits of polynomial index sequences are periodic with power-of-two periods - exactly
+        # what a slab size of 4096 blocks would hide behind)
+        x = torch.randint(0, 2, shape, generator=torch.Generator().manual_seed(1504 + k)).to(torch.float32)
+        cfg = f"{nm},{lay}"
+        try:
+            y = enc(x)
+            small = enc(x.reshape(-1, k)[4090:4103])
+            back = enc.inverse_encode(y)
+            back = back[0] if isinstance(back, tuple) else back
+        except Exception as e:  # noqa: BLE001
+            res.viol("many-blocks", cfg, "raises", f"{type(e).__name__}: {str(e)[:200]}")
+            continue
+        res.ev(tot // k, nontrivial=tot // k, transitions=3)
+        if not torch.equal(y.reshape(-1, n)[4090:4103], small):
+            res.viol("many-blocks", cfg, "identity", f"blocks 4090..4102 of {tot // k} blocks in one call are encoded differently from the same blocks encoded alone")
+        elif tuple(back.shape) != tuple(x.shape) or not torch.equal(back.to(torch.float32), x):
+            j = int((back.to(torch.float32).reshape(-1, k) != x.reshape(-1, k)).any(dim=1).nonzero()[0]) if tuple(back.shape) == tuple(x.shape) else -1
+            res.viol("many-blocks", cfg, "identity", f"encode followed by inverse_encode on {tot // k} blocks: block {j} is not recovered (shape {tuple(back.shape)})", {"block": j})
+        try:
+            ex = enc.extract_message(y)
+            if tuple(ex.shape) != tuple(x.shape) or not torch.equal(ex.to(torch.float32), x):
+                res.viol("many-blocks", cfg, "identity", f"extract_message after encode on {tot // k} blocks does not return the messages")
+        except (AttributeError, NotImplementedError):
+            pass
+        except Exception as e:  # noqa: BLE001
+            res.viol("many-blocks", cfg, "raises", f"extract_message: {type(e).__name__}: {str(e)[:200]}")
+    res.outcome((nm, n, k))
+    res.sample({"encoder": nm, "n": n, "k": k})
 
 
 def dims_case(p, res):
